@@ -7,6 +7,8 @@
 
 mod common;
 
+mod c02;
+mod c02_conn;
 mod c16;
 
 use explore::report::Tier;
@@ -41,6 +43,7 @@ fn main() {
     common::install_panic_hook();
     let args = Args { tier, seed };
     let code = match argv[1].as_str() {
+        "C02" => c02::run(&args),
         "C16" => c16::run(&args),
         other => {
             eprintln!("unknown property {other}");
@@ -71,6 +74,7 @@ fn replay(path: &str) -> i32 {
     println!("expected failure: {}", v["what"].as_str().unwrap_or(""));
     let r = &v["replay"];
     match prop {
+        "C02" => c02::replay(r),
         "C16" => c16::replay(r),
         other => {
             eprintln!("no replay for property {other}");
